@@ -17,7 +17,8 @@ Not decided: equality of values (varint arithmetic, sign extension, float bits, 
 particular values, recursion through the names table for specific schemas.
 """
 import facts as factsmod
-from mir import Program, callee_names, calls_named
+from mir import Program, callee_names, calls_named, op_local
+import os
 import common
 import readset
 import wiretab
@@ -128,6 +129,48 @@ def run(rep, tier="quick", replay=None, evidence_dir=None):
             r = rv.resolve_operand(dc[0][1]["args"][3])
             ok = bool(r and 1 <= r[0] <= rv.argc and rv.local_name(r[0]) == "reader")
         rep.ob("C01.R3", "GenericDatumReader::read_value decodes from the caller's reader itself", ok, "", rv.loc())
+    # reads on the caller's reader are exact and retried (C06.R4 instances): a datum decodes the same from a reader that
+    # hands out its bytes in pieces
+    import c06
+    sub6 = common.Report("C06", tier, 0)
+    c06.run(sub6, tier=tier, collect_only=True)
+    n36 = 0
+    for o in sub6.obligations:
+        if o["rule"] == "C06.R4":
+            n36 += 1
+            rep.ob("C01.R3", "[C06.R4] " + o["instance"], o["ok"], o["detail"], o["loc"])
+    rep.floor("C01.R3", "imported exact-read obligations", n36, 2)
+    # ---------------- R6 no value-dependent rejection in the decoder beyond the listed structural tests
+    rep.rule("C01.R6", "the datum decoder tests a decoded scalar only in the listed structural ways (end marker, uuid size, zig-zag parity): it accepts every value the encoder writes")
+    import tomllib as _toml
+    from mir import forward_taint
+    with open(os.path.join(common.VERIF, "rules", "tables", "c01_decoded_value_tests.toml"), "rb") as fh:
+        allowed_tests = _toml.load(fh).get("test", [])
+    SRC = ("zag_i32", "zag_i64", "decode_long", "decode_int", "decode_len", "decode_seq_len", "decode_variable", "read_usize", "from_le_bytes", "from_be_bytes", "from_signed_bytes_be")
+    found = {}
+    nfun6 = 0
+    for k_, b_ in sorted(prog.bodies.items()):
+        if b_.crate != "apache_avro" or not b_.file.endswith(("avro/src/decode.rs", "avro/src/bigdecimal.rs", "avro/src/util.rs")):
+            continue
+        src_ = [t["dest"]["l"] for bi, t in b_.calls() if not t["dest"]["p"] and any(callee_names(t["func"])[0].split("::")[-1] == x or callee_names(t["func"])[0].endswith("::" + x) for x in SRC)]
+        if not src_:
+            continue
+        nfun6 += 1
+        tainted = forward_taint(b_, src_, through_calls=True)
+        for bi, si, st in b_.stmts():
+            if st["s"] == "assign" and st["rv"]["r"] == "bin" and st["rv"]["op"] in ("Lt", "Le", "Gt", "Ge", "Eq", "Ne"):
+                ops_ = [st["rv"]["a"], st["rv"]["b"]]
+                if any(op_local(o) in tainted for o in ops_ if o.get("k") in ("copy", "move")):
+                    cst = [str(o.get("int")) for o in ops_ if o.get("k") == "const" and "int" in o]
+                    key_ = (b_.path if b_.kind != "Closure" else b_.parent, st["rv"]["op"], cst[0] if cst else "<non-constant>")
+                    found.setdefault(key_, []).append(b_.loc(bi))
+    for key_, locs in sorted(found.items()):
+        allow = [e for e in allowed_tests if (e["function"], e["op"], str(e["constant"])) == key_]
+        budget = allow[0]["count"] if allow else 0
+        rep.ob("C01.R6", "%s: test `decoded value %s %s` is a listed structural test" % key_, len(locs) <= budget,
+               "the decoder rejects (or treats specially) some decoded values through this comparison, %d site(s), table allows %d: values the encoder writes may no longer decode" % (len(locs), budget), locs[0])
+    rep.analysed["decoder functions scanned for tests on decoded scalars"] = nfun6
+    rep.floor("C01.R6", "decoder functions that read scalars", nfun6, 8)
     # ---------------- R4
     val = prog.body("types::Value::validate_internal")
     rep.ob("C01.R4", "validate_internal borrows the value immutably", val.local_ty(1).startswith("&types::Value") and not val.local_ty(1).startswith("&mut"), "self type %s" % val.local_ty(1), val.loc())
